@@ -26,6 +26,7 @@ def sh(cmd, cwd, env=None, timeout=1200):
 
 
 ROUND = 1
+OWN_ONLY = False     # --own: only the mutated property's own check (fast regression of the detection side)
 
 
 def evaluate(pid, k, keep, stored=None, reconfirm=True):
@@ -81,7 +82,7 @@ def evaluate(pid, k, keep, stored=None, reconfirm=True):
             keys = re.findall(r'^  (?:violation|unanalysable) (\S+)', r.stdout, re.M)
             return p, r.returncode, keys
         with ThreadPoolExecutor(max_workers=6) as ex:
-            for p, rc, keys in ex.map(chk, ALL):
+            for p, rc, keys in ex.map(chk, [pid] if OWN_ONLY else ALL):
                 if rc == 1:
                     det[p] = keys[:6]
                 elif rc not in (0, 1):
@@ -90,7 +91,7 @@ def evaluate(pid, k, keep, stored=None, reconfirm=True):
         res['violation_keys'] = det
         res['own_property_detects'] = pid in det
         res['confirmed'] = bool(res['demo_passes_unmodified'] and res['suite_passes'] and res['doc_tests_pass'] and res['demo_fails_with_mutation'])
-        if stored and res['confirmed']:
+        if stored and res['confirmed'] and not OWN_ONLY:
             mp = os.path.join(stored, 'meta.json')
             meta = json.load(open(mp))
             meta['detected_by'] = res['detected_by']
@@ -117,6 +118,8 @@ def evaluate(pid, k, keep, stored=None, reconfirm=True):
 
 def main_seeded(names):
     sdir = os.path.join(VERIF, 'seeded')
+    global OWN_ONLY
+    OWN_ONLY = '--own' in names
     reconfirm = '--reconfirm' in names
     names = [n for n in names if not n.startswith('--')] or sorted(os.listdir(sdir))
     bad = 0
@@ -125,7 +128,7 @@ def main_seeded(names):
         d = os.path.join(sdir, name)
         pid, k = name.split('-')[0], name.rsplit('m', 1)[1]
         return name, evaluate(pid, int(k), False, stored=d, reconfirm=reconfirm)
-    with ThreadPoolExecutor(max_workers=1 if reconfirm else 3) as ex:
+    with ThreadPoolExecutor(max_workers=1 if reconfirm else (10 if OWN_ONLY else 3)) as ex:
         results = list(ex.map(one, names))
     for name, r in results:
         own = r.get('own_property_detects')
